@@ -20,7 +20,7 @@ CHECKS = {
     "C02": {
         "scenarios": [{"name": "crash"}, {"name": "restart"}],
         "accept": ["crash:", "replay:", "restart:"],
-        "technique": "Lean: the daemon as a process (Proofs/Process, NonInterference): along EVERY run of completed iterations, iterations cut short before COMMIT and restarts, heights are applied once each, in order, without gaps (InOrder invariant); cut-short iterations leave no trace at any height; below PIP-10 every kill and restart can be erased without changing the ledger or the sync height (relational program logic: nothing but the final bump reads pn_sync_version); block all-or-nothing; regenerated fact that no sync-path write uses the pool. Tie: real SIGKILL of a child daemon before every kind of SQL statement / COMMIT / after COMMIT, and before COMMIT of a snapshot block on a 40 000-holder ledger (pages spilled) under the daemon's own journal configuration; reopen, integrity check, compare with the reference ledger, resume; single statements of a block transaction (first / last write, a random one, COMMIT) failing once instead of a kill, resumed ledger (one version row per height) compared; clean restarts after single heights and random sets of heights of a chain that runs past PIP-10 with moving prices and ungraded blocks (the averages cache is process state: C09's scenario), ledger compared with the continuous run",
+        "technique": "Lean: the daemon as a process (Proofs/Process, NonInterference): along EVERY run of completed iterations, iterations cut short before COMMIT and restarts, heights are applied once each, in order, without gaps (InOrder invariant); cut-short iterations leave no trace at any height; every kill and restart can be erased without changing the ledger or the sync height — below PIP-10 unconditionally, above it on runs whose averaging windows have no hole (resume_equals_uninterrupted_whole_windows) (relational program logic: nothing but the final bump reads pn_sync_version); block all-or-nothing; regenerated fact that no sync-path write uses the pool. Tie: real SIGKILL of a child daemon before every kind of SQL statement / COMMIT / after COMMIT, and before COMMIT of a snapshot block on a 40 000-holder ledger (pages spilled) under the daemon's own journal configuration; reopen, integrity check, compare with the reference ledger, resume; single statements of a block transaction (first / last write, a random one, COMMIT) failing once instead of a kill, resumed ledger (one version row per height) compared; clean restarts after single heights and random sets of heights of a chain that runs past PIP-10 with moving prices and ungraded blocks (the averages cache is process state: C09's scenario), ledger compared with the continuous run",
         "assumptions": [SQLITE],
         "design_ref": "DESIGN.md §7 C02",
     },
